@@ -4,7 +4,11 @@
 //! (b) self-referential gradual calculators: lifetime histories (move into `Box`/`Vec`/thread,
 //!     drop mid-iteration, interleaved instances) must produce exactly the values of plain
 //!     iteration — a smoke oracle; memory errors proper are looked for by the Miri run of
-//!     `src/bin/miri_hist.rs` (thorough tier).
+//!     `src/bin/miri_hist.rs` (thorough tier).  Correspondence (`LIFE` lines): random histories
+//!     over up to four interleaved calculators (construct / move / next / nth / len / drop) are run
+//!     on the real types and, in lockstep, by the value model `Model/Gradual.lean` and the
+//!     pointer-discipline model `Model/Lifetime.lean` (`Model/LifeWire.lean`); per-operation
+//!     observations and the set of live instances are diffed.
 //! (c) decoder scratch buffer: slider-heavy inputs decode identically when decoded repeatedly and
 //!     interleaved with malformed lines.
 
@@ -15,6 +19,7 @@ use rosu_pp::{
 
 use crate::{
     common::{decode, guarded, mode_name, mode_of, random_settings, resource_maps, truncate_objects, Run, Settings},
+    grad,
     mapgen::{random_map, GenCfg},
     rng::Rng,
     svops,
@@ -307,6 +312,170 @@ fn decoder_history(run: &mut Run, id: &str, text: &str) {
     }
 }
 
+/// One operation of a lifetime history (see `Model/LifeWire.lean`).
+#[derive(Clone, Copy, Debug)]
+enum H {
+    Construct,
+    Move(usize),
+    Next(usize),
+    Nth(usize, usize),
+    Len(usize),
+    Drop(usize),
+}
+
+impl H {
+    fn token(self) -> String {
+        match self {
+            H::Construct => "c".into(),
+            H::Move(i) => format!("m{i}"),
+            H::Next(i) => format!("N{i}"),
+            H::Nth(k, i) => format!("T{k}.{i}"),
+            H::Len(i) => format!("L{i}"),
+            H::Drop(i) => format!("d{i}"),
+        }
+    }
+}
+
+/// Random history over up to four interleaved instances; every instance index used is live at
+/// that point (anything else does not compile in Rust).
+fn gen_history(rng: &mut Rng, units: usize) -> Vec<H> {
+    let mut live: Vec<usize> = vec![0];
+    let mut made = 1;
+    let mut h = vec![H::Construct];
+    let n_ops = (2 * units + 6).min(36) + rng.below(6) as usize;
+    for _ in 0..n_ops {
+        if live.is_empty() {
+            if made >= 4 {
+                break;
+            }
+            h.push(H::Construct);
+            live.push(made);
+            made += 1;
+            continue;
+        }
+        let i = *rng.pick(&live);
+        match rng.below(12) {
+            0 if made < 4 => {
+                h.push(H::Construct);
+                live.push(made);
+                made += 1;
+            }
+            0 | 1 | 2 => h.push(H::Move(i)),
+            3 => h.push(H::Nth(*rng.pick(&[0usize, 1, 2, 3, 1 << 40]), i)),
+            4 => h.push(H::Len(i)),
+            5 if h.len() > 3 => {
+                h.push(H::Drop(i));
+                live.retain(|x| *x != i);
+            }
+            _ => h.push(H::Next(i)),
+        }
+    }
+    h
+}
+
+#[inline(never)]
+fn by_value(g: GradualDifficulty) -> GradualDifficulty {
+    std::hint::black_box(g)
+}
+
+/// Executes a history on real calculators. Returns the observation tokens and how many
+/// operations were executed (the run stops after a panic inside the library).
+fn exec_history(p: &grad::Prepared, hist: &[H]) -> Result<(Vec<String>, usize), String> {
+    let mut slots: Vec<Option<GradualDifficulty>> = Vec::new();
+    let mut toks = Vec::new();
+    let mut done = 0;
+    let mut moves = 0usize;
+    let mut parking: Vec<GradualDifficulty> = Vec::new();
+    for op in hist {
+        done += 1;
+        match *op {
+            H::Construct => {
+                slots.push(Some(grad::new_gradual(p)?)); // the Vec may reallocate: moves all instances
+                toks.push("C".into());
+            }
+            H::Move(i) => {
+                let g = slots[i].take().ok_or("history uses a dropped instance")?;
+                moves += 1;
+                let g = match moves % 3 {
+                    0 => *Box::new(g),
+                    1 => by_value(g),
+                    _ => {
+                        parking.push(g);
+                        parking.reserve(parking.capacity() + 3); // reallocates with the value inside
+                        parking.pop().ok_or("parking")?
+                    }
+                };
+                slots[i] = Some(g);
+                toks.push("M".into());
+            }
+            H::Drop(i) => {
+                drop(slots[i].take().ok_or("history uses a dropped instance")?);
+                toks.push("D".into());
+            }
+            H::Len(i) => {
+                let g = slots[i].as_ref().ok_or("history uses a dropped instance")?;
+                match guarded(|| g.len()) {
+                    Ok(l) if l > (1usize << 60) => toks.push("LU".into()),
+                    Ok(l) => toks.push(format!("L{l}")),
+                    Err(_) => toks.push("LU".into()),
+                }
+            }
+            H::Next(i) | H::Nth(_, i) => {
+                let g = slots[i].as_mut().ok_or("history uses a dropped instance")?;
+                let r = guarded(|| match *op {
+                    H::Nth(k, _) => g.nth(k),
+                    _ => g.next(),
+                });
+                match r {
+                    Ok(Some(a)) => toks.push(p.show_val(&a)),
+                    Ok(None) => toks.push("N".into()),
+                    Err(_) => {
+                        toks.push("P".into());
+                        break;
+                    }
+                }
+            }
+        }
+    }
+    let live: Vec<String> = slots.iter().enumerate().filter(|(_, s)| s.is_some()).map(|(i, _)| i.to_string()).collect();
+    toks.push(format!("live={}", if live.is_empty() { "-".into() } else { live.join("+") }));
+    Ok((toks, done))
+}
+
+/// (b) correspondence: random histories on real calculators against the lockstep run of the value
+/// model (`Model/Gradual.lean`) and the pointer-discipline model (`Model/Lifetime.lean`).
+fn life_lines(run: &mut Run, id: &str, text: &str, mode: u8, settings: &Settings, rng: &mut Rng, n_hist: usize) {
+    let p = match grad::prepare(text, mode, settings) {
+        Ok(p) => p,
+        Err(_) => {
+            run.count("life:skipped-not-preparable");
+            return;
+        }
+    };
+    for _ in 0..n_hist {
+        let hist = gen_history(rng, p.units);
+        match guarded(|| exec_history(&p, &hist)) {
+            Ok(Ok((toks, done))) => {
+                let h: Vec<String> = hist[..done].iter().map(|o| o.token()).collect();
+                let line = format!("LIFE {} {} {} {}", mode_name(p.mode), p.objs, p.sig_str(), h.join(","));
+                run.count("life:histories");
+                run.count_n("life:ops", done as u64);
+                run.count_n("life:moves", hist[..done].iter().filter(|o| matches!(o, H::Move(_))).count() as u64);
+                run.count_n("life:drops", hist[..done].iter().filter(|o| matches!(o, H::Drop(_))).count() as u64);
+                run.count_n("life:constructs", hist[..done].iter().filter(|o| matches!(o, H::Construct)).count() as u64);
+                if toks.iter().filter(|t| t.starts_with("S:")).count() >= 4 && line.len() < 400 && run.samples.iter().filter(|x| x.starts_with("LIFE ")).count() < 2 {
+                    // the StrainsVec part fills the sample list first: keep two histories in front
+                    run.samples.insert(0, format!("{line} => {}", toks.join(" ")));
+                    run.samples.truncate(6);
+                }
+                run.line(id, line, toks.join(" "));
+            }
+            Ok(Err(e)) => run.fail("oracle:gradual-new", "", id, e, p.repro()),
+            Err(e) => run.fail("oracle:gradual-panic", "", id, e, p.repro()),
+        }
+    }
+}
+
 pub fn run(tier: &str, seed: u64, only: Option<&str>) -> Run {
     let mut run = Run::default();
     let thorough = tier == "thorough";
@@ -337,7 +506,10 @@ pub fn run(tier: &str, seed: u64, only: Option<&str>) -> Run {
             }
         }
     }
+    let mut life_rng = Rng::new(seed ^ 0xC11_B0B);
     for (id, mode, text, settings) in maps {
+        // drawn for every map so that a replay of one case sees the same histories
+        let mut case_rng = Rng::new(life_rng.below(u64::MAX));
         if only.is_some_and(|o| o != id) {
             continue;
         }
@@ -381,6 +553,7 @@ pub fn run(tier: &str, seed: u64, only: Option<&str>) -> Run {
             }
             Err(p) => run.fail("oracle:gradual-panic", "", &id, p, text.clone()),
         }
+        life_lines(&mut run, &id, &text, mode, &settings, &mut case_rng, if thorough { 6 } else { 3 });
     }
     run
 }
